@@ -446,6 +446,11 @@ class Library:
         flat = []
         for p in parts:
             flat.extend(p.parts if isinstance(p, PartialLabel) else [p])
+        if formatted:
+            # f"gate_{i}" with a symbolic int i: the decimal rendering of i (same value as 'gate_' + str(i))
+            # (only the label-like shape: constant text around ONE number; anything else stays an opaque message)
+            if sum(1 for p in flat if isinstance(p, Sym) and p.is_int()) == 1 and all(isinstance(p, str) or (isinstance(p, Sym) and p.is_int()) for p in flat):
+                flat = [DigitStr(p) if isinstance(p, Sym) else p for p in flat]
         parts = [p for p in flat if not (isinstance(p, str) and p == '')]
         if len(parts) == 1 and isinstance(parts[0], Sym) and parts[0].is_label():
             return parts[0]           # '' + label  is the label itself
